@@ -178,6 +178,118 @@ func c19Creds() ([]c19Cred, error) {
 	}, nil
 }
 
+
+// c19Mint issues a certificate; parent == nil makes it self-signed.
+type c19MintOpts struct {
+	Subject  pkix.Name
+	DNS      []string
+	IsCA     bool
+	Parent   *x509.Certificate
+	SignKey  *ecdsa.PrivateKey
+	NotAfter time.Time
+}
+
+func c19Mint(o c19MintOpts) (*x509.Certificate, *ecdsa.PrivateKey, []byte, []byte, error) {
+	key, err := ecdsa.GenerateKey(elliptic.P256(), rand.Reader)
+	if err != nil {
+		return nil, nil, nil, nil, err
+	}
+	tmpl := &x509.Certificate{
+		SerialNumber: big.NewInt(time.Now().UnixNano()),
+		Subject:      o.Subject,
+		NotBefore:    time.Now().Add(-time.Hour),
+		NotAfter:     time.Now().Add(24 * time.Hour),
+		KeyUsage:     x509.KeyUsageDigitalSignature,
+		ExtKeyUsage:  []x509.ExtKeyUsage{x509.ExtKeyUsageClientAuth, x509.ExtKeyUsageServerAuth},
+		IsCA:         o.IsCA, BasicConstraintsValid: true,
+		DNSNames: o.DNS,
+	}
+	if o.IsCA {
+		tmpl.KeyUsage |= x509.KeyUsageCertSign
+	}
+	parent, signKey := tmpl, key
+	if o.Parent != nil {
+		parent, signKey = o.Parent, o.SignKey
+	}
+	der, err := x509.CreateCertificate(rand.Reader, tmpl, parent, &key.PublicKey, signKey)
+	if err != nil {
+		return nil, nil, nil, nil, err
+	}
+	cert, err := x509.ParseCertificate(der)
+	if err != nil {
+		return nil, nil, nil, nil, err
+	}
+	kb, _ := x509.MarshalECPrivateKey(key)
+	return cert, key, pem.EncodeToMemory(&pem.Block{Type: "CERTIFICATE", Bytes: der}), pem.EncodeToMemory(&pem.Block{Type: "EC PRIVATE KEY", Bytes: kb}), nil
+}
+
+// c19OwnAuthority builds a certificate authority of the harness's own, a server certificate under it and callers whose
+// certificates only someone holding the authority's key can make: names split over subject fields, chains through
+// intermediates, and near misses of "issued by the configured authority".
+func c19OwnAuthority() (caPEM, srvCrt, srvKey []byte, creds []c19Cred, err error) {
+	fail := func(e error) ([]byte, []byte, []byte, []c19Cred, error) { return nil, nil, nil, nil, e }
+	ca, caKey, caPEM, _, err := c19Mint(c19MintOpts{Subject: pkix.Name{CommonName: "Harness authority"}, IsCA: true})
+	if err != nil {
+		return fail(err)
+	}
+	srvCert, srvPriv, srvCrt, srvKey, err := c19Mint(c19MintOpts{Subject: pkix.Name{CommonName: "signer-test01"}, DNS: []string{"signer-test01"}, Parent: ca, SignKey: caKey})
+	if err != nil {
+		return fail(err)
+	}
+	pool := x509.NewCertPool()
+	pool.AddCert(ca)
+	dial := func(chain [][]byte, key *ecdsa.PrivateKey) func(string, int) (*grpc.ClientConn, error) {
+		return func(addr string, localPort int) (*grpc.ClientConn, error) {
+			c := tls.Certificate{Certificate: chain, PrivateKey: key}
+			cfg := &tls.Config{RootCAs: pool, ServerName: "signer-test01", MinVersion: tls.VersionTLS13,
+				GetClientCertificate: func(*tls.CertificateRequestInfo) (*tls.Certificate, error) { return &c, nil }}
+			return grpc.NewClient("passthrough:///"+addr, grpc.WithTransportCredentials(credentials.NewTLS(cfg)), c19Dialer(localPort))
+		}
+	}
+	add := func(name string, valid bool, cn string, isPeer bool, subject pkix.Name, dns []string, parent *x509.Certificate, signKey *ecdsa.PrivateKey, extraChain ...[]byte) error {
+		cert, key, _, _, err := c19Mint(c19MintOpts{Subject: subject, DNS: dns, Parent: parent, SignKey: signKey})
+		if err != nil {
+			return err
+		}
+		creds = append(creds, c19Cred{Name: name, Valid: valid, CN: cn, IsPeer: isPeer, Dial: dial(append([][]byte{cert.Raw}, extraChain...), key)})
+		return nil
+	}
+	cn := func(n string) pkix.Name { return pkix.Name{CommonName: n} }
+	interClient, interClientKey, _, _, err := c19Mint(c19MintOpts{Subject: cn("client-test01"), IsCA: true, Parent: ca, SignKey: caKey})
+	if err != nil {
+		return fail(err)
+	}
+	interPeer, interPeerKey, _, _, err := c19Mint(c19MintOpts{Subject: cn("signer-test02"), IsCA: true, Parent: ca, SignKey: caKey})
+	if err != nil {
+		return fail(err)
+	}
+	lookalike, lookalikeKey, _, _, err := c19Mint(c19MintOpts{Subject: cn("Harness authority"), IsCA: true})
+	if err != nil {
+		return fail(err)
+	}
+	for _, e := range []error{
+		add("own authority: client-test01", true, "client-test01", false, cn("client-test01"), []string{"client-test01"}, ca, caKey),
+		add("own authority: client-test02", true, "client-test02", false, cn("client-test02"), []string{"client-test02"}, ca, caKey),
+		add("own authority: signer-test02 (a peer)", true, "signer-test02", true, cn("signer-test02"), []string{"signer-test02"}, ca, caKey),
+		add("own authority: subject CN=client-test02 with DNS name client-test01", true, "client-test02", false, cn("client-test02"), []string{"client-test01"}, ca, caKey),
+		add("own authority: subject CN=client-test02 with DNS name signer-test02", true, "client-test02", false, cn("client-test02"), []string{"signer-test02"}, ca, caKey),
+		add("own authority: empty subject CN with DNS name client-test01", true, "", false, pkix.Name{Organization: []string{"x"}}, []string{"client-test01"}, ca, caKey),
+		add("own authority: subject CN=client-test02, O=OU=client-test01", true, "client-test02", false, pkix.Name{CommonName: "client-test02", Organization: []string{"client-test01"}, OrganizationalUnit: []string{"client-test01"}}, nil, ca, caKey),
+		add("own authority: client-test02 issued through an intermediate named client-test01", true, "client-test02", false, cn("client-test02"), nil, interClient, interClientKey, interClient.Raw),
+		add("own authority: client-test02 issued through an intermediate named signer-test02", true, "client-test02", false, cn("client-test02"), nil, interPeer, interPeerKey, interPeer.Raw),
+		add("own authority: client-test02 through an intermediate, with the authority's certificate appended", true, "client-test02", false, cn("client-test02"), nil, interClient, interClientKey, interClient.Raw, ca.Raw),
+		add("client-test01 issued by the server's own certificate", false, "", false, cn("client-test01"), nil, srvCert, srvPriv, srvCert.Raw),
+		add("client-test01 issued by an authority with the configured authority's name but another key", false, "", false, cn("client-test01"), nil, lookalike, lookalikeKey),
+		add("client-test01 issued by that look-alike authority, its certificate appended", false, "", false, cn("client-test01"), nil, lookalike, lookalikeKey, lookalike.Raw),
+		add("self-signed client-test01 followed by the configured authority's certificate", false, "", false, cn("client-test01"), nil, nil, nil, ca.Raw),
+	} {
+		if e != nil {
+			return fail(e)
+		}
+	}
+	return caPEM, srvCrt, srvKey, creds, nil
+}
+
 // c19Reply is what one call yielded.
 type c19Reply struct {
 	Err       string
@@ -321,7 +433,7 @@ type c19Server struct {
 	cancel context.CancelFunc
 }
 
-func newC19Server() (*c19Server, error) {
+func newC19Server(caPEM, crtPEM, keyPEM []byte) (*c19Server, error) {
 	perms := map[string][]*checker.Permissions{}
 	for cn, ws := range c19Table {
 		for _, w := range ws {
@@ -350,7 +462,7 @@ func newC19Server() (*c19Server, error) {
 			grpcapi.WithSigner(r.Signer), grpcapi.WithLister(r.Lister), grpcapi.WithProcess(r.Process),
 			grpcapi.WithAccountManager(r.AcctMgr), grpcapi.WithWalletManager(r.WalletMgr), grpcapi.WithPeers(r.Peers),
 			grpcapi.WithName("signer-test01"), grpcapi.WithID(1),
-			grpcapi.WithServerCert(resources.SignerTest01Crt), grpcapi.WithServerKey(resources.SignerTest01Key), grpcapi.WithCACert(resources.CACrt),
+			grpcapi.WithServerCert(crtPEM), grpcapi.WithServerKey(keyPEM), grpcapi.WithCACert(caPEM),
 			grpcapi.WithListenAddress(addr))
 		if err != nil {
 			cancel()
@@ -403,7 +515,7 @@ func (s *c19Server) stateDigest() string {
 func C19(tier string) int {
 	run := ev.NewRun("C19", tier, "exploration")
 	rig.Init()
-	srv, err := newC19Server()
+	srv, err := newC19Server(resources.CACrt, resources.SignerTest01Crt, resources.SignerTest01Key)
 	if err != nil {
 		run.HarnessErr = err
 		return run.Finish()
@@ -496,11 +608,13 @@ func C19(tier string) int {
 		}
 		return nil
 	}
+	pairs := 0
+	phases := func(creds []c19Cred, seqNames []string) bool {
 	for _, cr := range creds {
 		cc, err := cr.Dial(srv.addr, 0)
 		if err != nil {
 			run.HarnessErr = err
-			return run.Finish()
+			return false
 		}
 		for _, m := range methods {
 			for _, w := range wallets {
@@ -508,7 +622,7 @@ func C19(tier string) int {
 					continue
 				}
 				if cell(cr, cc, m, w, "") != nil {
-					return run.Finish()
+					return false
 				}
 			}
 		}
@@ -524,8 +638,10 @@ func C19(tier string) int {
 		}
 		panic(name)
 	}
-	seqCreds := []c19Cred{pick("valid client-test01"), pick("valid client-test02"), pick("valid signer-test02 (a peer)"),
-		pick("TLS without client certificate"), pick("self-signed certificate CN=client-test01"), pick("plaintext (no TLS)")}
+	var seqCreds []c19Cred
+	for _, n := range seqNames {
+		seqCreds = append(seqCreds, pick(n))
+	}
 	var seqMethods []c19Method
 	for _, m := range methods {
 		switch m.Name {
@@ -533,7 +649,6 @@ func C19(tier string) int {
 			seqMethods = append(seqMethods, m)
 		}
 	}
-	pairs := 0
 	firsts, seconds := seqCreds, seqCreds
 	if tier == "thorough" {
 		firsts, seconds, seqMethods = creds, creds, methods
@@ -547,17 +662,17 @@ func C19(tier string) int {
 				port, err := freePort()
 				if err != nil {
 					run.HarnessErr = err
-					return run.Finish()
+					return false
 				}
 				cc1, err := first.Dial(srv.addr, port)
 				if err != nil {
 					run.HarnessErr = err
-					return run.Finish()
+					return false
 				}
 				for _, m := range methods {
 					if m.Name == warm {
 						if cell(first, cc1, m, "Wallet 1", "") != nil {
-							return run.Finish()
+							return false
 						}
 					}
 				}
@@ -566,7 +681,7 @@ func C19(tier string) int {
 				cc2, err = second.Dial(srv.addr, port)
 				if err != nil {
 					run.HarnessErr = err
-					return run.Finish()
+					return false
 				}
 				for _, m := range seqMethods {
 					for _, w := range wallets[:2] {
@@ -574,7 +689,7 @@ func C19(tier string) int {
 							continue
 						}
 						if cell(second, cc2, m, w, first.Name+" for "+warm) != nil {
-							return run.Finish()
+							return false
 						}
 					}
 				}
@@ -583,15 +698,40 @@ func C19(tier string) int {
 			}
 		}
 	}
+		return true
+	}
+	if !phases(creds, []string{"valid client-test01", "valid client-test02", "valid signer-test02 (a peer)",
+		"TLS without client certificate", "self-signed certificate CN=client-test01", "plaintext (no TLS)"}) {
+		return run.Finish()
+	}
+	// The same with an authority of the harness's own configured, which allows certificates the repository's fixed test
+	// certificates cannot express.
+	caPEM, crtPEM, keyPEM, ownCreds, err := c19OwnAuthority()
+	if err != nil {
+		run.HarnessErr = err
+		return run.Finish()
+	}
+	srv.cancel()
+	srv.rig.Close()
+	if srv, err = newC19Server(caPEM, crtPEM, keyPEM); err != nil {
+		run.HarnessErr = err
+		return run.Finish()
+	}
+	if !phases(ownCreds, []string{"own authority: client-test01", "own authority: signer-test02 (a peer)",
+		"own authority: client-test02 issued through an intermediate named client-test01",
+		"own authority: subject CN=client-test02 with DNS name signer-test02", "client-test01 issued by the server's own certificate"}) {
+		return run.Finish()
+	}
+	ncreds := len(creds) + len(ownCreds)
 	// After everything the unauthenticated callers tried, a valid client can still sign at an epoch they tried.
 	run.Coverage = map[string]any{
 		"evaluations":         cells,
 		"distinct_nontrivial": len(classes),
-		"rule":                "a real API server (services/api/grpc with the repository's CA and server certificate) on loopback TCP; every one of the 16 RPC methods of the 5 registered services x every credential kind (plaintext, TLS without client certificate, self-signed CN=client-test01, certificate from a freshly generated other authority with and without its CA in the chain, valid client-test01/02/03, valid signer-test02) x wallets; unauthenticated kinds must yield no signature, account entry, key-generation reply or accepted protocol message and must not change the instance's state digest (all slashing records, lock states, account population, sessions); valid certificates are served according to the permissions of the certificate's subject name, clients cannot speak the key-generation protocol; then every ordered pair of callers (quick: three valid subjects incl. the peer as first, those and three unauthenticated kinds as second, five methods; thorough: every credential kind in both roles and every method) where the second connects from the very source address (ip:port) the first one used for a call and closed, judged as if the first had never existed; distinct = (credential, method, yielded, changed) classes",
+		"rule":                "a real API server (services/api/grpc with the repository's CA and server certificate) on loopback TCP; every one of the 16 RPC methods of the 5 registered services x every credential kind (plaintext, TLS without client certificate, self-signed CN=client-test01, certificate from a freshly generated other authority with and without its CA in the chain, valid client-test01/02/03, valid signer-test02, valid leaf followed by unverified certificates; and, against a second server configured with an authority of the harness's own: names split over CN / DNS names / O / OU, empty CN, leaves issued through intermediates named like a permitted client or a peer, certificates issued by the server's own certificate, by a look-alike authority of the same name, and a self-signed leaf followed by the authority's certificate) x wallets; unauthenticated kinds must yield no signature, account entry, key-generation reply or accepted protocol message and must not change the instance's state digest (all slashing records, lock states, account population, sessions); valid certificates are served according to the permissions of the certificate's subject name, clients cannot speak the key-generation protocol; then every ordered pair of callers (quick: three valid subjects incl. the peer as first, those and three unauthenticated kinds as second, five methods; thorough: every credential kind in both roles and every method) where the second connects from the very source address (ip:port) the first one used for a call and closed, judged as if the first had never existed; distinct = (credential, method, yielded, changed) classes",
 		"samples":             samples.List(),
 		"exhaustive":          true,
 		"methods":             len(methods),
-		"credentials":         len(creds),
+		"credentials":         ncreds,
 		"address_reuse_pairs": pairs,
 		"cells":               cells,
 		"classes":             classes,
